@@ -301,6 +301,72 @@ class Bag(ClosedForm):
         return -float(self.V(self.phase(which, T), T))
 
 
+class Cubic1T(Cubic1):
+    """Cubic1 with temperature-dependent cubic and quartic couplings (C04 variant, still polynomial in T):
+        A(T) = A (1 + kA (T/T0 - 1)),   lam(T) = lam (1 + kL (T/T0 - 1)),
+    V = 1/2 g (T^2 - T0^2) phi^2 - 1/3 A(T) T phi^3 + 1/4 lam(T) phi^4 - a T^4.
+    phi_+(T) closed form; T1 (saddle-node) and Tc located by bisection on closed-form expressions
+    (exact to rounding).  Added by the C09/C04 builder; nothing else depends on it."""
+
+    def __init__(self, p, s=1.0):
+        self.g, self.A, self.lam, self.a = p["g"], p["A"], p["lam"], p["a"]
+        self.kA, self.kL = p.get("kA", 0.0), p.get("kL", 0.0)
+        self.T0 = p["T0"] * s
+        from scipy.optimize import brentq
+
+        def disc(T):
+            return (self.AT(T) * T) ** 2 - 4 * self.lamT(T) * self.m2(T)
+
+        def dv(T):  # V(phi_+) - V(0) up to a positive factor: m2 - 2 (A T)^2 / (9 lam)
+            return self.m2(T) - 2 * (self.AT(T) * T) ** 2 / (9 * self.lamT(T))
+
+        hi = self.T0
+        for _ in range(200):
+            hi *= 1.05
+            if disc(hi) < 0:
+                break
+        else:
+            raise ValueError("Cubic1T: no saddle-node temperature below 1.05^200 T0")
+        self.T1 = brentq(disc, self.T0, hi, xtol=1e-14 * self.T0, rtol=8.9e-16)
+        self.Tc = brentq(dv, self.T0, self.T1, xtol=1e-14 * self.T0, rtol=8.9e-16)
+
+    def AT(self, T):
+        return self.A * (1 + self.kA * (T / self.T0 - 1))
+
+    def lamT(self, T):
+        return self.lam * (1 + self.kL * (T / self.T0 - 1))
+
+    def V(self, x, T):
+        x = np.asarray(x, dtype=float)
+        f = x[..., 0]
+        return (0.5 * self.m2(T) * f * f - self.AT(T) * T * f ** 3 / 3 + 0.25 * self.lamT(T) * f ** 4
+                - self.a * T ** 4)
+
+    def dVdT(self, x, T):
+        x = np.asarray(x, dtype=float)
+        f = x[..., 0]
+        dAT = self.A * (1 + self.kA * (2 * T / self.T0 - 1))      # d(A(T) T)/dT
+        dlam = self.lam * self.kL / self.T0
+        return self.g * T * f * f - dAT * f ** 3 / 3 + 0.25 * dlam * f ** 4 - 4 * self.a * T ** 3
+
+    def grad(self, x, T):
+        x = np.asarray(x, dtype=float)
+        f = x[..., 0]
+        return np.stack([self.m2(T) * f - self.AT(T) * T * f * f + self.lamT(T) * f ** 3], axis=-1)
+
+    def hess(self, x, T):
+        f = float(x[0])
+        return np.array([[self.m2(T) - 2 * self.AT(T) * T * f + 3 * self.lamT(T) * f * f]])
+
+    def phase(self, which, T):
+        if which == "high":
+            return np.array([0.0])
+        disc = (self.AT(T) * T) ** 2 - 4 * self.lamT(T) * self.m2(T)
+        if disc < 0:
+            return np.array([np.nan])
+        return np.array([(self.AT(T) * T + math.sqrt(disc)) / (2 * self.lamT(T))])
+
+
 def closed(spec) -> ClosedForm:
     s = float(spec.get("units", 1.0))
     fam = spec["family"]
@@ -310,6 +376,8 @@ def closed(spec) -> ClosedForm:
         return Cubic1(spec["p"], s)
     if fam in ("Bag1", "Bag2"):
         return Bag(spec["p"], s)
+    if fam == "Cubic1T":
+        return Cubic1T(spec["p"], s)
     raise ValueError(fam)
 
 
@@ -573,6 +641,26 @@ def st_cubic1(draw, delta_range=(0.02, 0.9)):
 
 
 @st.composite
+def st_cubic1t(draw, delta_range=(0.02, 0.9)):
+    """Cubic1T: Cubic1 parameters plus slopes kA, kL in [-0.5, 0.5] of the cubic/quartic couplings in T/T0
+    (couplings stay positive on [T0, 2 T0]); Tn = Tc - x (Tc - T0)."""
+    base = draw(st_cubic1(delta_range=delta_range))
+    p = dict(base["p"])
+    p["kA"] = round(draw(st.floats(-0.5, 0.5)), 3)
+    p["kL"] = round(draw(st.floats(-0.5, 0.5)), 3)
+    try:
+        cf = Cubic1T(p)
+    except ValueError:
+        p["kA"], p["kL"] = 0.0, 0.0
+        cf = Cubic1T(p)
+    x = draw(st.floats(*delta_range))
+    Tn = cf.Tc - x * (cf.Tc - cf.T0)
+    delta = round(1 - Tn / cf.Tc, 6)
+    delta = min(max(delta, 1e-4), (1 - cf.T0 / cf.Tc) * 0.98)
+    return {"family": "Cubic1T", "p": p, "delta": delta}
+
+
+@st.composite
 def st_bag(draw, nf=1):
     v = [round(draw(st.floats(50.0, 300.0)), 2) for _ in range(nf)]
     lam = [round(draw(st.floats(0.05, 1.0)), 4) for _ in range(nf)]
@@ -600,3 +688,193 @@ def all_relabellings(nf):
     for perm in itertools.permutations(range(nf)):
         for signs in itertools.product((1.0, -1.0), repeat=nf):
             yield {"perm": list(perm), "signs": list(signs), "shift": [0.0] * nf}
+
+
+# ---------------------------------------------------------------------------
+# Additions for C10 / C11 (traced phases): extra closed forms and direct-tracing helpers.
+# Free functions only; nothing above is changed.
+# ---------------------------------------------------------------------------
+def ddp_phase(cf, which, T):
+    """Closed-form d2p/dT2 of a phase (p = -V at the minimum).  d2p/dT2 = -V_TT + V_Tphi H^-1 V_phiT."""
+    if isinstance(cf, Z2x2):
+        return cf.ddp_phase(which, T)
+    if isinstance(cf, Cubic1):
+        f = float(cf.phase(which, T)[0])
+        vtt = cf.g * f * f - 12 * cf.a * T * T
+        vtf = 2 * cf.g * T * f - cf.A * f * f
+        vff = float(cf.hess([f], T)[0, 0])
+        return -vtt + (vtf * vtf / vff if f != 0.0 else 0.0)
+    if isinstance(cf, Bag):
+        return 12 * cf.a * T * T
+    raise TypeError(type(cf))
+
+
+def dp_phase(cf, which, T):
+    if isinstance(cf, Bag):
+        return 4 * cf.a * T ** 3
+    return cf.dp_phase(which, T)
+
+
+def p_field_part(cf, which, T):
+    """Field-dependent part of the pressure, p + (-a T^4 removed): p - a T^4."""
+    return cf.p_phase(which, T) - cf.a * T ** 4
+
+
+def phase_ext(cf, which, T):
+    """Closed-form branch continued through a second-order 'merge' end: beyond the merge the
+    continuous branch is the origin (Z2x2).  NaN where no continuation exists."""
+    x = cf.phase(which, T)
+    if np.all(np.isfinite(x)):
+        return x
+    if isinstance(cf, Z2x2):
+        ins = cf.instability(which)
+        if ins is not None and ins["hi_kind"] == "merge" and T >= ins["hi"]:
+            return np.zeros(2)
+    return x
+
+
+def existence(cf, which):
+    """{'lo','lo_kind','hi','hi_kind'}: interval on which the phase is a genuine minimum; kinds
+    'true' (genuine disappearance), 'merge' (second-order merge, branch continues), 'zero', 'none'."""
+    return cf.instability(which)
+
+
+def alpha_closed(cf, T):
+    """alpha(T) of WallGo's definition from closed-form p, dp, ddp of both phases."""
+    pH, pL = cf.p_phase("high", T), cf.p_phase("low", T)
+    dH, dL = dp_phase(cf, "high", T), dp_phase(cf, "low", T)
+    ddL = ddp_phase(cf, "low", T)
+    eH, eL = T * dH - pH, T * dL - pL
+    csqL = dL / (T * ddL)
+    return (eH - eL - (pH - pL) / csqL) / (3 * T * dH)
+
+
+def configured_potential(spec, tscale=None, fscale=None):
+    """(V, model, cf): zoo potential with configureDerivatives called (scales in the spec's units)."""
+    import WallGo
+
+    model, cf, rel = make_model(spec)
+    V = model.getEffectivePotential()
+    ts, fs = scales(spec)
+    if tscale is not None:
+        ts = float(tscale)
+    if fscale is not None:
+        fs = np.asarray(fscale, dtype=float)
+    V.configureDerivatives(WallGo.VeffDerivativeSettings(
+        temperatureVariationScale=float(ts),
+        fieldValueVariationScale=[float(x) for x in rel.scale_to_user(fs)]))
+    return V, model, cf
+
+
+def make_free_energy(V, cf, which, Tstart, guess_jitter=0.0):
+    """FreeEnergy object started at the closed-form location of the phase at Tstart (unrelabelled)."""
+    import WallGo
+    from WallGo.freeEnergy import FreeEnergy
+
+    x0 = np.asarray(cf.phase(which, Tstart), dtype=float) * (1.0 + guess_jitter)
+    fe = FreeEnergy(V, float(Tstart), WallGo.Fields(x0))
+    fe.disableAdaptiveInterpolation()
+    return fe
+
+
+def table_of(fe):
+    """Observed interpolation table (T_k, values[k, :nf+1]) or None if the private arrays are gone."""
+    T = getattr(fe, "_interpolationPoints", None)
+    vals = getattr(fe, "_interpolationValues", None)
+    if T is None or vals is None:
+        return None
+    T = np.asarray(T, dtype=float)
+    vals = np.asarray(vals, dtype=float)
+    if T.ndim != 1 or vals.ndim != 2 or vals.shape[0] != T.shape[0] or T.size < 2:
+        return None
+    return T, vals
+
+
+def existence_ext(cf, which):
+    """instability() with two reclassifications used by C10/C11 (the original function is unchanged):
+    * Cubic1 'high' at T0 is a transcritical exchange of stability with phi_-(T): for T < T0 a local
+      minimum continues to exist at phi_-(T) < 0 on a branch that is continuous through phi = 0, so that
+      end is 'merge'-like (a tracer may stop there or continue; both are consistent with C11);
+    * Z2x2 orthogonal instabilities are subcritical (the minimum really disappears) only if
+      lh*ls < lhs^2/4; otherwise the mixed stationary point that bifurcates is a minimum (second order)
+      and the end is 'merge'-like with the mixed point as continuation.
+    Adds 'lo_cont'/'hi_cont' in {None, 'origin', 'phi_minus', 'mixed'}."""
+    ins = cf.instability(which)
+    if ins is None:
+        return None
+    ex = dict(ins)
+    ex["lo_cont"] = ex["hi_cont"] = None
+    if isinstance(cf, Cubic1):
+        if which == "high":
+            ex["lo_kind"], ex["lo_cont"] = "merge", "phi_minus"
+    elif isinstance(cf, Z2x2):
+        Tmerge = cf.Ts0 if which == "high" else cf.Th0
+        supercritical = cf.lh * cf.ls > 0.25 * cf.lhs ** 2
+        if ex["hi_kind"] == "merge" and ex["hi"] == Tmerge:
+            ex["hi_cont"] = "origin"
+        for side in ("lo", "hi"):
+            if ex[side + "_kind"] == "true" and supercritical:
+                ex[side + "_kind"], ex[side + "_cont"] = "merge", "mixed"
+    return ex
+
+
+def z2x2_mixed(cf, T):
+    """Mixed stationary point (h, s) with both fields non-zero (None if it does not exist)."""
+    det = cf.lh * cf.ls - 0.25 * cf.lhs ** 2
+    if det == 0:
+        return None
+    h2 = (-cf.mh2(T) * cf.ls + 0.5 * cf.lhs * cf.ms2(T)) / det
+    s2 = (-cf.ms2(T) * cf.lh + 0.5 * cf.lhs * cf.mh2(T)) / det
+    if h2 >= 0 and s2 >= 0:
+        return np.array([math.sqrt(h2), math.sqrt(s2)])
+    return None
+
+
+def branch_point(cf, which, ex, T):
+    """(x, status) for ex = existence_ext(cf, which).  status: 'exact' closed-form minimum inside the
+    existence interval; 'cont' closed-form continuation beyond a merge-like end; 'ghost' beyond a TRUE
+    end (x = value at the end, for coarse use only); None: no closed form available."""
+    if ex["lo"] <= T <= ex["hi"]:
+        x = cf.phase(which, T)
+        if np.all(np.isfinite(x)):
+            return x, "exact"
+        return None, None
+    side = "lo" if T < ex["lo"] else "hi"
+    kind, cont = ex[side + "_kind"], ex[side + "_cont"]
+    if kind == "true":
+        X = ex[side]
+        x = cf.phase(which, X * (1 + 1e-12) if side == "lo" else X * (1 - 1e-12))
+        return (x, "ghost") if np.all(np.isfinite(x)) else (None, None)
+    if cont == "origin":
+        return np.zeros(cf.nf), "cont"
+    if cont == "phi_minus":
+        disc = (cf.A * T) ** 2 - 4 * cf.lam * cf.m2(T)
+        if disc >= 0:
+            return np.array([(cf.A * T - math.sqrt(disc)) / (2 * cf.lam)]), "cont"
+        return None, None
+    if cont == "mixed":
+        x = z2x2_mixed(cf, T)
+        return (x, "cont") if x is not None else (None, None)
+    return None, None
+
+
+def branch_thermo(cf, which, ex, T):
+    """Closed-form (p, dp, ddp) on the branch actually continued by branch_point (None if unavailable).
+    p = -V(x), dp = -V_T(x), ddp = -V_TT(x) + V_Tx H^-1 V_xT with V_xT, V_TT by exact formulas for
+    the polynomial families (central differences of the closed forms in T at fixed x for V_xT)."""
+    x, stt = branch_point(cf, which, ex, T)
+    if stt not in ("exact", "cont"):
+        return None
+    p = -float(cf.V(x, T))
+    dp = -float(cf.dVdT(x, T))
+    h = 1e-4 * T
+    h = 1e-2 * T
+    vtt = float(-cf.dVdT(x, T + 2 * h) + 8 * cf.dVdT(x, T + h) - 8 * cf.dVdT(x, T - h)
+                + cf.dVdT(x, T - 2 * h)) / (12 * h)   # dVdT is cubic in T: 4th-order stencil is exact
+    vxt = (np.asarray(cf.grad(x, T + h)) - np.asarray(cf.grad(x, T - h))) / (2 * h)  # grad is quadratic in T: exact
+    H = cf.hess(x, T)
+    try:
+        corr = float(vxt @ np.linalg.solve(H, vxt))
+    except np.linalg.LinAlgError:
+        return None
+    return p, dp, -vtt + corr
